@@ -1217,6 +1217,199 @@ impl Scenario for C14 {
 #[derive(Clone, Debug, Serialize, Deserialize)]
 pub enum C13Case {
     History(Case),
+    /// a program run near a cap placed from its own reference trajectory
+    Program {
+        #[serde(with = "crate::util::sx_serde")]
+        prog: crate::sx::Sx,
+        #[serde(with = "crate::util::sx_serde")]
+        env: crate::sx::Sx,
+        flags: u32,
+        /// which counter: "heap" | "atoms" | "pairs"
+        cap: String,
+        /// distance of the cap from the peak of the reference run: cap = peak + delta
+        delta: i64,
+        entropy: crate::seams::EntropyPlan,
+    },
+    /// a decoder run near the pair cap
+    Deser {
+        #[serde(with = "crate::util::hex_serde")]
+        bytes: Vec<u8>,
+        /// 0 = node_from_bytes_backrefs, 1 = node_from_bytes_backrefs_old, 2 = node_from_bytes
+        decoder: u8,
+        delta: i64,
+    },
+}
+
+fn c13_program(prog: &crate::sx::Sx, env: &crate::sx::Sx, flags: u32, cap: &str, delta: i64, entropy: &crate::seams::EntropyPlan) -> Outcome {
+    use crate::prog::{AllocCfg, run_once};
+    use clvmr::verif::Probe;
+    let mut out = Outcome::default();
+    let mut fp = Fp::default();
+    let reference = run_once(prog, env, flags, 0, &AllocCfg::unlimited(), entropy, 200_000);
+    out.evals += 1;
+    if reference.setup_failed || reference.probes.dropped > 0 {
+        return out;
+    }
+    // peaks over step ends (counters only fall at guard exit, which is its own step)
+    let mut peak = (2u64, 0u64, 1u64);
+    for ev in &reference.probes.events {
+        if let Probe::Step { atoms, pairs, heap, .. } = ev {
+            peak.0 = peak.0.max(*atoms as u64);
+            peak.1 = peak.1.max(*pairs as u64);
+            peak.2 = peak.2.max(*heap as u64);
+        }
+    }
+    peak.0 = peak.0.max(reference.counts.0);
+    peak.1 = peak.1.max(reference.counts.1);
+    peak.2 = peak.2.max(reference.counts.2);
+    let mut ac = AllocCfg::unlimited();
+    let want_err;
+    match cap {
+        "heap" => {
+            let l = peak.2 as i64 + delta;
+            if l < 1 {
+                return out;
+            }
+            ac.heap_limit = Some(l as u64);
+            want_err = "OutOfMemory";
+        }
+        "atoms" => {
+            let n = MAX_ATOMS as i64 - peak.0 as i64 - delta; // counter reaches MAX + (-delta)
+            if n < 0 {
+                return out;
+            }
+            ac.ghost_atoms = n as u64;
+            want_err = "TooManyAtoms";
+        }
+        _ => {
+            let n = MAX_PAIRS as i64 - peak.1 as i64 - delta;
+            if n < 0 {
+                return out;
+            }
+            ac.ghost_pairs = n as u64;
+            want_err = "TooManyPairs";
+        }
+    }
+    let capped = run_once(prog, env, flags, 0, &ac, entropy, 200_000);
+    out.evals += 1;
+    fp.str(&reference.key());
+    fp.str(cap);
+    fp.u64(delta as u64);
+    out.count(&format!("fault.program_cap.{cap}.{}", if delta < 0 { "below_peak" } else { "at_or_above_peak" }), 1);
+    let limit = ac.heap_limit.unwrap_or(u32::MAX as u64);
+    // no step may show a counter above its cap
+    for ev in &capped.probes.events {
+        if let Probe::Step { atoms, pairs, heap, .. } = ev
+            && (*atoms as u64 > MAX_ATOMS || *pairs as u64 > MAX_PAIRS || *heap as u64 > limit)
+        {
+            out.fail(Violation::new("counter-within-cap", format!("during a program run a step ended with (atoms,pairs,heap)=({atoms},{pairs},{heap}); caps {MAX_ATOMS}/{MAX_PAIRS}/{limit}")).with("op", "run_program").with("cap", cap));
+            out.fingerprint = fp.finish();
+            return out;
+        }
+    }
+    if capped.counts.0 > MAX_ATOMS || capped.counts.1 > MAX_PAIRS || capped.counts.2 > limit {
+        out.fail(Violation::new("counter-within-cap", format!("after a program run the allocator reports {:?}; caps {MAX_ATOMS}/{MAX_PAIRS}/{limit}", capped.counts)).with("op", "run_program").with("cap", cap));
+        out.fingerprint = fp.finish();
+        return out;
+    }
+    if capped.setup_failed {
+        // the cap struck while the program was being built: only legal below the peak
+        if delta >= 0 {
+            out.fail(Violation::new("cap-error-only-when-exceeded", format!("building the program failed although the {cap} cap is {delta} above the peak of the unlimited run")).with("op", "setup").with("cap", cap));
+        }
+        out.fingerprint = fp.finish();
+        return out;
+    }
+    if delta >= 0 {
+        // cap at or above the peak: the run is unaffected
+        let same = match (&reference.res, &capped.res) {
+            (Ok((c0, h0, _)), Ok((c1, h1, _))) => c0 == c1 && h0 == h1,
+            (Err((k0, _)), Err((k1, _))) => k0 == k1,
+            _ => false,
+        };
+        if !same {
+            out.fail(
+                Violation::new("cap-error-only-when-exceeded", format!("{cap} cap {delta} above the peak {peak:?} of the unlimited run, yet: unlimited {}; capped {}", reference.brief(), capped.brief()))
+                    .with("op", "run_program")
+                    .with("cap", cap),
+            );
+        }
+    } else if let Ok(_) = &reference.res {
+        // cap below the peak of a successful run: it must fail with the matching cap error
+        match &capped.res {
+            Err((k, _)) if k == want_err => out.count(&format!("fault.cap_hit.{k}"), 1),
+            other => {
+                out.fail(
+                    Violation::new("cap-exceeded-must-fail", format!("{cap} cap {} below the peak {peak:?} of the unlimited run, but the capped run gives {}", -delta, match other { Ok((c, _, _)) => format!("Ok(cost {c})"), Err((k, m)) => format!("Err({k}: {m})") }))
+                        .with("op", "run_program")
+                        .with("cap", cap),
+                );
+            }
+        }
+    }
+    out.nontrivial = reference.probes.events.len() >= 3;
+    out.fingerprint = fp.finish();
+    out
+}
+
+fn c13_deser(bytes: &[u8], decoder: u8, delta: i64) -> Outcome {
+    use clvmr::serde::{node_from_bytes, node_from_bytes_backrefs, node_from_bytes_backrefs_old};
+    let mut out = Outcome::default();
+    let mut fp = Fp::default();
+    let dec = |a: &mut Allocator| match decoder {
+        0 => node_from_bytes_backrefs(a, bytes),
+        1 => node_from_bytes_backrefs_old(a, bytes),
+        _ => node_from_bytes(a, bytes),
+    };
+    let mut a0 = Allocator::new();
+    let r0 = dec(&mut a0);
+    out.evals += 1;
+    let Ok(n0) = r0 else { return out };
+    let used = a0.pair_count() as i64;
+    let t0 = crate::sx::Sx::from_alloc(&a0, n0, 4_000_000);
+    let preload = MAX_PAIRS as i64 - used - delta;
+    if preload < 0 {
+        return out;
+    }
+    let mut a1 = Allocator::new();
+    if a1.add_ghost_pair(preload as usize).is_err() {
+        return out;
+    }
+    let r1 = dec(&mut a1);
+    out.evals += 1;
+    fp.bytes(bytes);
+    fp.u64(decoder as u64);
+    fp.u64(delta as u64);
+    let name = ["node_from_bytes_backrefs", "node_from_bytes_backrefs_old", "node_from_bytes"][decoder.min(2) as usize];
+    out.count(&format!("fault.decoder_pair_cap.{}", if delta < 0 { "below_need" } else { "at_or_above_need" }), 1);
+    if a1.pair_count() as u64 > MAX_PAIRS {
+        out.fail(Violation::new("counter-within-cap", format!("{name}: pair count {} exceeds the cap", a1.pair_count())).with("op", name));
+    } else if delta >= 0 {
+        match r1 {
+            Ok(n1) => {
+                let same = crate::sx::Sx::from_alloc(&a1, n1, 4_000_000).zip(t0).map(|(x, y)| x.same_tree(&y)).unwrap_or(true);
+                if !same {
+                    out.fail(Violation::new("cap-error-only-when-exceeded", format!("{name}: different tree when {delta} pairs of head-room remain")).with("op", name));
+                }
+            }
+            Err(e) => {
+                out.fail(Violation::new("cap-error-only-when-exceeded", format!("{name}: needs {used} pairs, {delta} more than that were available, but it failed with {}", err_name(&e))).with("op", name));
+            }
+        }
+    } else {
+        match r1 {
+            Err(EvalErr::TooManyPairs) => out.count("fault.cap_hit.TooManyPairs", 1),
+            Err(e) => {
+                out.fail(Violation::new("cap-exceeded-gives-cap-error", format!("{name}: {} pairs short of what it needs, failed with {} instead of too-many-pairs", -delta, err_name(&e))).with("op", name));
+            }
+            Ok(_) => {
+                out.fail(Violation::new("cap-exceeded-must-fail", format!("{name}: succeeded although it needs {used} pairs and only {} were available", used + delta)).with("op", name));
+            }
+        }
+    }
+    out.nontrivial = bytes.len() >= 3;
+    out.fingerprint = fp.finish();
+    out
 }
 
 pub struct C13;
@@ -1225,6 +1418,31 @@ impl Scenario for C13 {
     const LEVEL: &'static str = "exploration";
     type Case = C13Case;
     fn generate(rng: &mut Rng, tier: Tier, _run: u64) -> C13Case {
+        match rng.below(10) {
+            0 | 1 => {
+                let (g, flags) = crate::scen::c02::gen_case_program(rng, tier == Tier::Thorough, true, true, false);
+                return C13Case::Program {
+                    prog: g.prog.compact(),
+                    env: g.env,
+                    flags: flags | if rng.chance(1, 3) { crate::prog::F_ENABLE_GC } else { 0 },
+                    cap: rng.pick(&["heap", "heap", "atoms", "pairs"]).to_string(),
+                    delta: *rng.pick(&[-3i64, -1, -1, 0, 0, 1, 5]),
+                    entropy: if rng.bool() { crate::seams::EntropyPlan::Zero } else { crate::seams::EntropyPlan::Prng(rng.next_u64()) },
+                };
+            }
+            2 => {
+                let t = crate::wgen::gen_sharing_tree(rng, false);
+                let decoder = rng.below(3) as u8;
+                let mut a = Allocator::new();
+                let bytes = t.to_alloc(&mut a).ok().and_then(|n| if decoder == 2 { clvmr::serde::node_to_bytes_limit(&a, n, 1 << 22).ok() } else { clvmr::serde::node_to_bytes_backrefs(&a, n).ok() }).unwrap_or(vec![0x80]);
+                return C13Case::Deser {
+                    bytes,
+                    decoder,
+                    delta: *rng.pick(&[-2i64, -1, -1, 0, 0, 1, 3]),
+                };
+            }
+            _ => {}
+        }
         let mut ops = gen_ops(rng, Mode::C13, tier == Tier::Thorough);
         // reference trajectory on an unlimited allocator (real code) to place the caps
         let probe = Case {
@@ -1273,24 +1491,42 @@ impl Scenario for C13 {
     fn execute(case: &C13Case, ctx: &Ctx) -> Outcome {
         match case {
             C13Case::History(c) => run_history(c, ctx, Mode::C13).0,
+            C13Case::Program { prog, env, flags, cap, delta, entropy } => c13_program(prog, env, *flags, cap, *delta, entropy),
+            C13Case::Deser { bytes, decoder, delta } => c13_deser(bytes, *decoder, *delta),
         }
     }
     fn shrink(case: &C13Case) -> Vec<C13Case> {
         match case {
             C13Case::History(c) => shrink_case(c).into_iter().map(C13Case::History).collect(),
+            C13Case::Program { prog, env, flags, cap, delta, entropy } => prog
+                .shrink_candidates()
+                .into_iter()
+                .take(200)
+                .map(|t| C13Case::Program {
+                    prog: t,
+                    env: env.clone(),
+                    flags: *flags,
+                    cap: cap.clone(),
+                    delta: *delta,
+                    entropy: entropy.clone(),
+                })
+                .collect(),
+            C13Case::Deser { .. } => vec![],
         }
     }
     fn sample(case: &C13Case) -> Value {
         match case {
             C13Case::History(c) => sample_case(c),
+            C13Case::Program { prog, flags, cap, delta, .. } => json!({"kind": "program near cap", "program": prog.brief(160), "flags": format!("{flags:#x}"), "cap": cap, "cap_minus_peak": delta}),
+            C13Case::Deser { bytes, decoder, delta } => json!({"kind": "decoder near pair cap", "decoder": decoder, "bytes": crate::util::hex_short(bytes), "headroom_minus_need": delta}),
         }
     }
     fn rule() -> &'static str {
-        "case = allocator history as in C12 run on Allocator::new_limited(L) and/or pre-loaded with add_ghost_atom / add_ghost_pair to a chosen distance from the 62,500,000 caps; L and the distances are placed from the reference trajectory of the same history on an unlimited allocator (at a chosen step +-1, one below the peak, or 0..64). Per call: the model computes which caps completing the call would exceed; the call must fail iff that set is non-empty, with an error naming a member; a failed call leaves counts and the contents of every live handle unchanged; counters never exceed a cap. Non-trivial: >=3 calls of >=2 kinds."
+        "case = allocator history as in C12 run on Allocator::new_limited(L) and/or pre-loaded with add_ghost_atom / add_ghost_pair to a chosen distance from the 62,500,000 caps; L and the distances are placed from the reference trajectory of the same history on an unlimited allocator (at a chosen step +-1, one below the peak, or 0..64). Per call: the model computes which caps completing the call would exceed; the call must fail iff that set is non-empty, with an error naming a member; a failed call leaves counts and the contents of every live handle unchanged; counters never exceed a cap. 20% of the cases are generated programs run with the heap / atom / pair cap placed -3..+5 from the peak of their own unlimited reference run (cap >= peak: identical outcome; cap < peak of a successful run: the matching cap error; no step probe above a cap), 10% are node_from_bytes_backrefs / _old / node_from_bytes decoding with the pair cap -2..+3 from what the decoder needs. Non-trivial: >=3 calls of >=2 kinds (histories), >=3 VM steps (programs), >=3 bytes (decoders)."
     }
     fn default_runs(tier: Tier) -> u64 {
         match tier {
-            Tier::Quick => 8_000_000,
+            Tier::Quick => 2_500_000,
             Tier::Thorough => 4_000_000_000,
         }
     }
@@ -1307,6 +1543,16 @@ impl Scenario for C13 {
         ]
     }
     fn reach_probes() -> &'static [&'static str] {
-        &["fault.cap_hit.OutOfMemory", "fault.cap_hit.TooManyAtoms", "fault.cap_hit.TooManyPairs", "fault.full_restore", "fault.gc_replace"]
+        &[
+            "fault.cap_hit.OutOfMemory",
+            "fault.cap_hit.TooManyAtoms",
+            "fault.cap_hit.TooManyPairs",
+            "fault.full_restore",
+            "fault.gc_replace",
+            "fault.program_cap.heap.below_peak",
+            "fault.program_cap.atoms.below_peak",
+            "fault.program_cap.pairs.below_peak",
+            "fault.decoder_pair_cap.below_need",
+        ]
     }
 }
